@@ -213,6 +213,9 @@ pub fn gate_has_waker(id: usize) -> bool { unsafe { WAKERS[id].is_some() } }
 
 /// async step helper: logs `enter`, waits for a `GateN`, logs `exit`, yields `v`
 pub async fn astep<T>(enter: usize, exit: usize, n: u8, v: T) -> T { ev(enter); GateN { n }.await; ev(exit); v }
+/// async step helper for `->` in async macros (the function receives the future of the previous value): logs `enter` at its first poll,
+/// awaits the previous value, waits for a `GateN`, logs `exit`, yields `v ^ x`
+pub async fn athen<F: core::future::Future<Output = u8>>(enter: usize, exit: usize, n: u8, prev: F, x: u8) -> u8 { ev(enter); let v = prev.await; GateN { n }.await; ev(exit); v ^ x }
 /// async step helper over a harness-controlled gate
 pub async fn fstep<T>(enter: usize, exit: usize, gate: usize, v: T) -> T { ev(enter); GateF { id: gate }.await; ev(exit); v }
 
